@@ -44,6 +44,16 @@ def programs(tier):
             {"k": "par", "cfg": {"cc": "all_completed"}, "branches": [
                 [{"k": "par", "cfg": {"cc": "first"}, "branches": [FAST, SURVIVORS[sn]]}, {"k": "sleep", "d": 6}],
                 [{"k": "step", "fn": {"sleep": 8, "then": {"ret": "other"}}}]]}]})
+    # the completed operation's result is oversized (recorded as a summary, its branches are traversed again on replay)
+    # and a surviving branch is no longer blocked when the next invocation replays it
+    surv = [{"k": "wait", "s": 1}, {"k": "step", "fn": {"ret": "late"}}]
+    out.append({"name": "par[first:oversized-result,survivor-unblocked-on-replay]", "seq": [
+        {"k": "par", "cfg": {"cc": "first"}, "branches": [[{"k": "step", "fn": {"bytes": 300_000}}], surv]},
+        {"k": "wait", "s": 3}, {"k": "step", "fn": {"ret": "end"}}]})
+    out.append({"name": "map[min1:oversized-result,survivors-unblocked-on-replay]", "seq": [
+        {"k": "map", "items": [0, 1, 2], "cfg": {"min": 1}, "body": [
+            {"k": "step", "fn": {"item_sleep": [0, 1, 1], "then": {"bytes": 300_000}}}, {"k": "step", "fn": {"ret": "next"}}]},
+        {"k": "wait", "s": 3}, {"k": "step", "fn": {"ret": "end"}}]})
     return out
 
 
